@@ -466,7 +466,9 @@ class _Optimizers(_Algorithm):
         # the constrained edges are defined in x-order (and z-order), so the weights always have
         # to be put into sorted order to place them, even when they are the default ones
         sort_weights = self._sort_order is not None
-        weight_array = _check_optional_array(self._size, weights, check_finite=self._check_finite)
+        weight_array = _check_optional_array(
+            self._size, weights, dtype=float, check_finite=self._check_finite
+        )
         if poly_order is None:
             poly_orders = _determine_polyorders(
                 y, estimation_poly_order, weight_array, baseline_func, **method_kws
